@@ -177,6 +177,31 @@ class State:
         self.cons[k] = ("in", nv)
         return True
 
+    def bnd_get(self, t):
+        if t[0] == "int":
+            return (t[1], t[1])
+        d = self.cons.get(("bnd", t))
+        lo, hi = (d[1], d[2]) if d is not None else (None, None)
+        dd = self.cons.get(t)
+        if dd is not None and dd[0] == "in" and dd[1] and all(isinstance(v, int) for v in dd[1]):
+            lo = min(dd[1]) if lo is None else max(lo, min(dd[1]))
+            hi = max(dd[1]) if hi is None else min(hi, max(dd[1]))
+        return (lo, hi)
+
+    def bnd_meet(self, t, lo=None, hi=None):
+        if t[0] == "int":
+            return (lo is None or t[1] >= lo) and (hi is None or t[1] <= hi)
+        d = self.cons.get(("bnd", t))
+        clo, chi = (d[1], d[2]) if d is not None else (None, None)
+        if lo is not None:
+            clo = lo if clo is None else max(clo, lo)
+        if hi is not None:
+            chi = hi if chi is None else min(chi, hi)
+        if clo is not None and chi is not None and clo > chi:
+            return False
+        self.cons[("bnd", t)] = ("rng", clo, chi)
+        return True
+
     def known(self, t):
         if t[0] == "int":
             return t[1]
@@ -212,6 +237,7 @@ class Evaluator:
         self.no_inline = no_inline or (lambda fn: False)
         self.fnrefs = {}
         self._headers = {}
+        self.widen_loops = True
         self.stats = {"paths": 0, "forks": 0, "inlined": set(), "opaque_calls": set(), "modelled": set(), "unreachable_paths": 0}
 
     # ---- ADT helpers ------------------------------------------------------------
@@ -742,9 +768,15 @@ class Evaluator:
         fid = act.fid
         # loop widening
         if act.block in self.loop_headers(body):
-            r = self.arrive_loop_header(st, act)
-            if r is not None:
-                return [r]
+            if self.widen_loops:
+                r = self.arrive_loop_header(st, act)
+                if r is not None:
+                    return [r]
+            else:
+                n = act.visits.get(act.block, 0) + 1
+                act.visits[act.block] = n
+                if n > 6:
+                    raise Unsupported("loop at bb%d of %s makes no observable progress" % (act.block, act.fn["name"]))
         for s in blk["stmts"]:
             if s["st"] == "assign":
                 w = self.where(act, s.get("span"))
@@ -904,7 +936,18 @@ class Evaluator:
                         res.add({"Eq": l == r, "Ne": l != r, "Lt": l < r, "Le": l <= r, "Gt": l > r, "Ge": l >= r}[t[1]])
                     if len(res) == 1:
                         return int(res.pop())
-            rel = st.rel_get(a, b)
+            (alo, ahi), (blo, bhi) = st.bnd_get(a), st.bnd_get(b)
+            poss = set()
+            if alo is None or bhi is None or alo <= bhi:
+                pass
+            # a < b possible unless alo >= bhi ; a > b possible unless ahi <= blo ; a == b possible unless ranges disjoint
+            lt_possible = not (alo is not None and bhi is not None and alo >= bhi)
+            gt_possible = not (ahi is not None and blo is not None and ahi <= blo)
+            eq_possible = not ((alo is not None and bhi is not None and alo > bhi) or (ahi is not None and blo is not None and ahi < blo))
+            brel = frozenset(c for c, okc in (("<", lt_possible), ("=", eq_possible), (">", gt_possible)) if okc)
+            rel = st.rel_get(a, b) & brel
+            if not rel:
+                return None
             if rel <= CMP_TRUE[t[1]]:
                 return 1
             if not (rel & CMP_TRUE[t[1]]):
@@ -957,6 +1000,23 @@ class Evaluator:
             allowed = CMP_TRUE[t[1]] if val == 1 else frozenset("<=>") - CMP_TRUE[t[1]]
             if not st.rel_meet(t[2][0], t[2][1], allowed):
                 return False
+            a0, b0 = t[2]
+            for (u, c, flip) in ((a0, b0, False), (b0, a0, True)):
+                if c[0] == "int" and u[0] != "int":
+                    al = allowed if not flip else frozenset({"<": ">", ">": "<", "=": "="}[x] for x in allowed)
+                    lo = hi = None
+                    if al == frozenset("<"):
+                        hi = c[1] - 1
+                    elif al == frozenset("<="):
+                        hi = c[1]
+                    elif al == frozenset(">"):
+                        lo = c[1] + 1
+                    elif al == frozenset(">="):
+                        lo = c[1]
+                    elif al == frozenset("="):
+                        lo = hi = c[1]
+                    if (lo is not None or hi is not None) and not st.bnd_meet(u, lo, hi):
+                        return False
         if k == "app" and t[1] in ("Eq", "Ne") and len(t[2]) == 2:
             a, b = t[2]
             if b[0] != "int" and a[0] == "int":
@@ -1125,6 +1185,8 @@ class Evaluator:
         if isinstance(res, tuple) and res and res[0] == "panic!":
             st.emit(("panic", res[1], (), ci.w))
             return [Path("panic", None, st, res[1])]
+        if isinstance(res, tuple) and res and res[0] == "suspend":
+            return [Path("suspended", None, st, ci)]
         if isinstance(res, tuple) and res and res[0] == "inline":
             _, fn, argv = res
             self.push(st, fn, fn["body"], argv, ci.dest, ci.target)
@@ -1207,6 +1269,8 @@ def term_type(t):
         return t[1]
     if t[0] == "int":
         return t[2]
+    if t[0] == "item" and t[1][0] == "iter" and t[1][1] == "chunks":
+        return "&[u8]"
     if t[0] == "item" and t[1][0] == "adt" and t[1][1].endswith("ops::range::Range") and len(t[1][4]) == 2:
         return term_type(t[1][4][1]) or term_type(t[1][4][0])
     if t[0] == "unwrap":
